@@ -429,7 +429,12 @@ for _mf in sorted(_glob.glob(_os.path.join(_HERE, "seeded", "*", "meta.json"))):
                      [("@patch", _os.path.join(_os.path.dirname(_mf), "patch.diff"), "")], _meta.get("change", "")[:120], any_rule=True))
 
 # refactorings for which the analysis answers *unrecognised* (documented in DESIGN 11.12): not run as neutral edits
-NEUTRAL_UNRECOGNISED = {}
+NEUTRAL_UNRECOGNISED = {
+    # a one-entry memo of the encoded string head kept as *bytes* (memcpy out of the staging buffer and back): that the bytes
+    # copied back are the bytes write_int() would produce is a fact about buffer contents, not about the shape of the code;
+    # C06 answers "unrecognised" (exit 2) for it and says so (DESIGN 11.16)
+    "C06g/refactor4.diff": "byte-level head memo in CdnsEncoder",
+}
 for _pf in sorted(_glob.glob(_os.path.join(_HERE, "neutral", "*", "refactor*.diff"))):
     _dir = _os.path.basename(_os.path.dirname(_pf))
     _prop = _dir[:3]
